@@ -5,6 +5,25 @@ import io, itertools, json, os, random, sys, contextlib
 sys.path.insert(0, os.environ.get("OPERON_REPO", "/repo"))
 
 
+class Hang(BaseException):
+    """the call under test did not return within the watchdog limit (C16: unschedulable diagrams raise "instead of looping")"""
+
+
+def no_hang(fn, *a, limit=5.0, **k):
+    import signal
+
+    def on_alarm(_s, _f):
+        raise Hang()
+    old = signal.signal(signal.SIGALRM, on_alarm)
+    signal.setitimer(signal.ITIMER_REAL, limit)
+    try:
+        return fn(*a, **k)
+    finally:
+        signal.setitimer(signal.ITIMER_REAL, 0)
+        signal.signal(signal.SIGALRM, old)
+
+
+
 def search(seed=0, N=300):
     from operon_ai.core.types import DataType, IntegrityLabel, Capability
     from operon_ai.core.wagent import PortType, ModuleSpec, WiringDiagram, WiringError
@@ -93,8 +112,10 @@ def search(seed=0, N=300):
                     ext.setdefault(sp.name, {})[pn] = v
         enforce = rnd.random() < 0.5
         try:
-            rep = ex.execute(ext, enforce_static_checks=enforce)
+            rep = no_hang(ex.execute, ext, enforce_static_checks=enforce)
             raised = None
+        except Hang:
+            return n, f"execute did not return within 5 s (looping instead of raising a wiring error) on diagram #{it} seed {seed}: modules {[sp.name for sp in specs]}, wires {[(w.src_module, w.dst_module) for w in diag.wires]}"
         except WiringError as e:
             rep, raised = None, e
         except Exception as e:
@@ -168,8 +189,10 @@ def search(seed=0, N=300):
                                 stack.extend(adj[x])
                     must_raise = cyc or any(len(v) != 1 for v in sources.values())
                     try:
-                        rep = ex.execute(ext)
+                        rep = no_hang(ex.execute, ext)
                         raised = False
+                    except Hang:
+                        return n, f"diagram declared {list(order)} wires {ws} external {sorted(ext)}: execute did not return within 5 s (looping instead of raising a wiring error)"
                     except WiringError:
                         raised = True
                     if must_raise and not raised:
